@@ -27,8 +27,33 @@ def main():
     fd_stat = open(os.path.join(outdir, 'stats.txt'), 'w')
     state = {'n': 0, 'evals': 0}
 
+    # A case normally takes milliseconds.  One that burns more than LIMIT seconds of CPU is abandoned and recorded
+    # with the stack it was interrupted in (a time budget hit is "inconclusive", never a violation); SIGVTALRM is
+    # used because libFuzzer keeps SIGALRM for its own -timeout.
+    import signal
+    import traceback
+
+    class CaseTimeout(BaseException):
+        pass
+
+    def on_alarm(signum, frame):
+        raise CaseTimeout()
+
+    signal.signal(signal.SIGVTALRM, on_alarm)
+    fd_slow = open(os.path.join(outdir, 'slow.txt'), 'a')
+    LIMIT = 60.0
+
     def one(data):
-        r = prop.run_case(data)
+        signal.setitimer(signal.ITIMER_VIRTUAL, LIMIT)
+        try:
+            r = prop.run_case(data)
+        except CaseTimeout:
+            signal.setitimer(signal.ITIMER_VIRTUAL, 0)
+            fd_slow.write('%s\t%s\n' % (bytes(data).hex(), traceback.format_exc().replace('\n', ' | ')[-1500:]))
+            fd_slow.flush()
+            return
+        finally:
+            signal.setitimer(signal.ITIMER_VIRTUAL, 0)
         state['n'] += 1
         state['evals'] += r.evals
         if state['n'] % 2000 == 0:
